@@ -11,7 +11,7 @@ ASSUME = [
 ]
 
 
-def run_logical(ctx, level, models, extra_cases=None, nontrivial=None, rule="", sim=None, sample_filter=None):
+def run_logical(ctx, level, models, extra_cases=None, nontrivial=None, rule="", sim=None, sample_filter=None, extra_cov=None):
     """models: list of (module, cfg) generator configurations (each also model-checks its invariants).
     extra_cases: list of additional case dicts (seeded random drivers).
     sim: optional (module, cfg, num, depth) for tlc -simulate behaviours beyond the bound."""
@@ -68,6 +68,8 @@ def run_logical(ctx, level, models, extra_cases=None, nontrivial=None, rule="", 
         "known_findings_matched": known,
         "exhaustive": False,
     }
+    if extra_cov:
+        cov.update(extra_cov)
     H.write_evidence(ctx, level, cov, ASSUME, nviol)
     H.log("%s %s: cases=%d rejected=%d violations=%d known=%s wall=%.1fs" % (
         ctx.prop, ctx.tier, len(cases), len(bad), nviol, known, time.time() - ctx.t0))
